@@ -92,6 +92,7 @@ func c17(c *core.Check) {
 	c17ZeroAngles(c)
 	c17GradientBox(c)
 	c17ClipRestore(c)
+	c17TransformSeparators(c)
 	c.Assume = []string{"float32/float64 conversions are treated as identity", "the group laws follow from the laws of 2x3 affine matrices once each routine equals its specification matrix (mathematics, not re-proved)"}
 
 	r1 := c.Rule("R1", "matrix package: Translation, Scaling, Rotation, Skew, Identity, New, Determinant, mult/Mul/Mul3, LeftMultBy, RightMultBy, Apply, Invert and the in-place Translate/Scale/Rotate/Skew have the specification normal forms", 16)
@@ -1122,4 +1123,35 @@ func c17ClipRestore(c *core.Check) {
 	if n == 0 {
 		r.Anchor("applyClipPath: matrix.Mul(…)")
 	}
+}
+
+// c17TransformSeparators: the transforms of an SVG `transform` attribute are separated by white space and/or a comma.
+func c17TransformSeparators(c *core.Check) {
+	p := c.Prog
+	r := c.Rule("R10", "a comma may separate the transforms of an SVG transform attribute: in parseTransform each item is stripped of leading separators with a constant set that contains the comma before its name is read (`translate(10,20), scale(2)` made svg.Parse fail for the whole image)", 1)
+	fn := p.Fn("svg", "parseTransform")
+	if fn == nil {
+		r.Anchor("svg.parseTransform")
+		return
+	}
+	found := false
+	var at token.Pos
+	core.Instrs(fn, func(in ssa.Instruction) {
+		call, ok := in.(*ssa.Call)
+		if !ok || call.Call.StaticCallee() == nil || len(call.Call.Args) != 2 {
+			return
+		}
+		switch call.Call.StaticCallee().String() {
+		case "strings.TrimLeft", "strings.Trim", "strings.TrimPrefix":
+			if set, isK := core.ConstStr(call.Call.Args[1]); isK && strings.Contains(set, ",") {
+				found = true
+				at = call.Pos()
+			}
+		}
+	})
+	pos := p.Pos(fn.Pos())
+	if found {
+		pos = p.Pos(at)
+	}
+	r.Cond(found, "svg.parseTransform | leading comma stripped from each item", pos, "strings.TrimLeft/Trim with a set containing the comma", "no item is stripped of a leading comma: the name of the second transform of `translate(10,20), scale(2)` is read as \", scale\" and the whole attribute — and image — is rejected")
 }
